@@ -636,3 +636,39 @@ def reported_status_is_recorded(ctx, prog, rule):
                    "%s returns the status %s: a reported status must be read out of self.child_state (Finished), never produced on the side while the state stays Running"
                    % (name, M.term_str(pay)[:80]))
         ctx.floor(rule, "%s status returns" % name, n, 1)
+
+
+# ----------------------------------------------------------------------------
+# what an unconfigured PopenConfig requests (Default impl): nothing
+# ----------------------------------------------------------------------------
+
+CONFIG_DEFAULTS = {
+    "stdin": "None", "stdout": "None", "stderr": "None", "detached": 0, "executable": "None", "env": "None",
+    "cwd": "None", "setuid": "None", "setgid": "None", "setpgid": 0,
+}
+
+
+def config_defaults(ctx, prog, rule, fields):
+    """`<PopenConfig as Default>::default()` — the value every builder starts from — requests nothing for the given fields:
+    'when asked' clauses are decided for the flag's source, this ties the absent request to the literal default."""
+    df = prog.fn("<popen::PopenConfig as std::default::Default>::default")
+    adt = prog.adts.get("popen::PopenConfig")
+    if df is None or adt is None:
+        ctx.missing(rule, "PopenConfig::default")
+        return
+    names = [f["name"] for f in adt["variants"][0]["fields"]]
+    T = M.Terms(df)
+    r = T.local(0)
+    if not (r[0] == "agg" and r[1][0] == "adt" and r[1][1] == "popen::PopenConfig" and len(r[2]) == len(names)):
+        ctx.ob(rule, "config-default.shape", False, df.loc(0), "PopenConfig::default() must build the struct literally; found %s" % M.term_str(r)[:120])
+        return
+    vals = dict(zip(names, r[2]))
+    for f in fields:
+        want = CONFIG_DEFAULTS[f]
+        v = vals.get(f)
+        if want in (0, 1):
+            ok = v is not None and const_of(v) == want
+        else:
+            ok = v is not None and v[0] == "agg" and v[1][0] == "adt" and v[1][2] == want
+        ctx.ob(rule, "config-default.%s" % f, ok, df.loc(0),
+               "PopenConfig::default().%s = %s (must be %s: nothing is requested unless the caller asks)" % (f, M.term_str(v) if v else None, "false" if want == 0 else want))
